@@ -832,9 +832,22 @@ class Engine:
                 if q: return s.call(q, st, [v], ctx, node)
         if name == "cast": return [(st, args[1])]
         if name == "range": return [(st, ("range", args))]
-        if name == "bytes" and len(args) == 1 and isinstance(args[0], SBytes): return [(st, args[0])]
-        if name == "bytearray" and not args:
+        if name in ("bytes", "bytearray") and len(args) == 1 and isinstance(args[0], SBytes): return [(st, SBytes(args[0].arr, args[0].n, args[0].off))]
+        if name in ("bytes", "bytearray") and not args:
             return [(st, SBytes(fresh("ba", BYTE_ARR), 0))]
+        if name in ("bytes", "bytearray") and len(args) == 1 and isinstance(args[0], (list, tuple)):
+            arr = fresh("lit", BYTE_ARR); res = []
+            oks = []
+            for i, b in enumerate(args[0]):
+                if isinstance(b, int) and not isinstance(b, bool):
+                    if not 0 <= b <= 255: return [(st, Raised("ValueError", "bytes must be in range(0, 256)"))]
+                    arr = z3.Store(arr, i, z3.BitVecVal(b, 8))
+                elif isinstance(b, SBV) and b.w <= 8: arr = z3.Store(arr, i, to_bv(b, 8))
+                else:
+                    x = to_int(b); oks.append(z3.And(x >= 0, x <= 255)); arr = z3.Store(arr, i, z3.Int2BV(x, 8))
+            for st1, r in s.implicit_failure(st, ctx, "safe:byte-range", z3.And(*oks) if oks else True, "ValueError", node):
+                res.append((st1, r if r is not None else SBytes(arr, len(args[0]))))
+            return res
         if name == "list" and len(args) == 1 and isinstance(args[0], (list, tuple)): return [(st, list(args[0]))]
         if name == "super" and not args:
             return [(st, ("super", ctx.cls, st.locals.get("self")))]
@@ -1108,11 +1121,11 @@ class Engine:
         return outs
 
     def x_Assign(s, stmt, st, ctx):
-        if len(stmt.targets) != 1: raise Unsupported("multi-assign")
         outs = []
         for st1, v in s.eval(stmt.value, st, ctx):
             if isinstance(v, Raised): outs.append((st1, RAISE, v)); continue
-            s.assign(stmt.targets[0], v, st1, ctx); outs.append((st1, NORMAL, None))
+            for t in stmt.targets: s.assign(t, v, st1, ctx)          # a = b = value: evaluated once, bound left to right
+            outs.append((st1, NORMAL, None))
         return outs
     def x_AnnAssign(s, stmt, st, ctx):
         if stmt.value is None: return [(st, NORMAL, None)]
